@@ -66,6 +66,9 @@ func (c *c18) SweepCount(string) uint64            { return 0 }
 
 func (c *c18) Init(env *Env) error {
 	c.env = env
+	// the harness itself holds documents of tens of megabytes (decoded twice) in the huge-file
+	// runs: the heap safety limit, which counts the whole process, is set higher for this check
+	simrt.DefaultHeapLimit = 4 << 30
 	if env.CLI == "" {
 		return fmt.Errorf("C18 needs the instrumented CLI binary")
 	}
